@@ -126,7 +126,7 @@ void InterrogateBuilder::
 read_command_file(istream &in) {
   string line;
   std::getline(in, line);
-  while (!in.fail() && !in.eof()) {
+  while (!in.fail()) {
     // Strip out the comment.
     size_t hash = line.find('#');
     if (hash != string::npos) {
